@@ -79,8 +79,8 @@ def parse(text, src=None):
             continue
         if line.startswith('LAMMPS (') and not has_banner:
             has_banner = True
-            if not terminated:
-                banner_torn = True
+            if not line.strip().endswith(')'):
+                banner_torn = True          # stops before its closing parenthesis: not a banner
             else:
                 s = line.strip()
                 version = s[8:-1]
